@@ -275,6 +275,19 @@ def spec(c, io, mo):
                 if da.get(k, 0) + db.get(k, 0) != dab.get(k, 0):
                     c['_class'] = 'additivity:' + c['kind']
                     return 'conv(A+B) != conv(A)+conv(B) at key %s (A=%s)' % (k, a)
+    # per-ballot exactness cannot depend on what the converter object converted before (a profile over more candidates first)
+    if c.get('_warm') and not c['kind'].startswith('sub_') and c['kind'] != 'party':
+        fresh = run_impl(c)
+        obj = converter(c)
+        if obj is not None:
+            try:
+                obj.convert(py_profile(c['kind'], c['_warm']))
+                again = {json_key(enc_key(kk)): q(v) for kk, v in obj.convert(py_profile(c['kind'], votes)).items()}
+            except Exception as e:   # noqa
+                again = 'raises %s' % type(e).__name__
+            if again != fresh:
+                c['_class'] = 'reuse:' + c['kind']
+                return 'a converter that converted a profile over more candidates before answers %s, a fresh one %s' % (str(again)[:300], str(fresh)[:300])
     one_item = c['kind'] in ('first_pref', 'ranked_approval', 'score_ranked', 'inverted_approval', 'sub_approval', 'sub_ranked', 'sub_score')
     if one_item:
         total_in = sum(q(w) for b, w in votes if (b or c['kind'] != 'first_pref'))
@@ -386,8 +399,12 @@ def gen(rng, count):
             cfg = sorted(rng.sample(range(1, m + 1), rng.randint(0, m)))
         if not votes:
             continue
+        # another profile of the same type over MORE candidates, converted first by the same object in the reuse clause
+        m2, nb2 = m + rng.randint(1, 3), rng.randint(1, 3)
+        warm = (ranked_profile(rng, m2, nb2) if t == 'r' else approval_profile(rng, m2, nb2) if t == 'a'
+                else score_profile(rng, m2, nb2) if t == 's' else None)
         yield dict(unit='convert', kind=kind, cfg=cfg, votes=votes, names=rng.choice(['short', 'long']),
-                   _splits=splits_for(rng, len(votes)))
+                   _splits=splits_for(rng, len(votes)), _warm=warm)
 
 
 
